@@ -425,7 +425,35 @@ def run_long_record(ctx, n, m, seed, extra_nan=0):
     ctx.nontrivial("long", n, m, seed)
 
 
+def run_two_gib(ctx):
+    """an ensemble matrix of more than 2 GiB (2700 forecasts x 100 000 members: the byte
+    count no longer fits 32 bits): a record of 27 forecasts repeated 100 times scores
+    exactly what the record scores"""
+    r_ = np.random.default_rng(ctx.seed + 31)
+    m = 100000
+    e0 = np.round(r_.normal(size=(27, m)) * 64) / 64 + np.arange(27)[:, None] % 3
+    o0 = np.round(r_.normal(size=27) * 64) / 64 + 0.5 / 64
+    base = decomp(crps_fn()(o0, e0))[0]
+    big = np.tile(e0, (100, 1))
+    ob = np.tile(o0, 100)
+    ctx.evaluated()
+    ctx.tag("ensemble-matrix-above-2GiB")
+    ctx.api("crps", 2)
+    case = {"kind": "twogib", "shape": [int(big.shape[0]), m]}
+    try:
+        got = decomp(crps_fn()(ob, big))[0]
+        ok = bool(np.all(np.abs(got - base) <= 1e-9 * (np.abs(base) + 1e-12)))
+        det = {"bytes": int(big.nbytes), "record": base, "record_repeated_100_times": got}
+    except Exception as e:
+        ok, det = False, {"bytes": int(big.nbytes), "exc": repr(e)[:200]}
+    del big
+    ctx.check("crps.two-gib", ok, "crps|ensemble-matrix-above-2GiB", case, det)
+    ctx.nontrivial("twogib", m)
+
+
 def run(ctx):
+    if ctx.tier == "thorough" and ctx.shard == 4 % ctx.nshards:
+        run_two_gib(ctx)
     # record lengths around powers of two and round numbers (where an implementation
     # may switch algorithm or buffer), also with some observations missing so that
     # the number of *valid* forecasts lands on such lengths
@@ -487,6 +515,8 @@ def run(ctx):
 
 
 def replay(ctx, case):
+    if case.get("kind") == "twogib":
+        return run_two_gib(ctx)
     if case.get("kind") == "long":
         run_long_record(ctx, int(case["n"]), int(case["m"]), int(case["seed"]),
                         int(case.get("extra_nan", 0)))
